@@ -73,7 +73,8 @@ LOADER_NAME = {"seqs": "load_unaligned", "dict": "c14_load_rec", "tab": "load_ta
 # ================================================================ generator
 @st.composite
 def cases(draw, mode):
-    family = draw(st.sampled_from(["seqs", "seqs", "dict", "dict", "dict", "tab"]))
+    fams = ["seqs", "seqs", "dict", "dict", "dict", "tab"]
+    family = draw(st.sampled_from(fams if mode == "owned" else fams[::-1]))
     lo, hi = (1, 12) if mode == "owned" else (3, 8)
     n = draw(st.integers(lo, hi))
     keys = draw(st.lists(st.sampled_from(KEYS), min_size=n, max_size=n, unique=True))
@@ -95,8 +96,10 @@ def cases(draw, mode):
     outcomes = []
     for _ in range(nsteps):
         col = {}
-        for k in keys:
-            o = draw(st.sampled_from(kinds))
+        for i, k in enumerate(keys):
+            # real-executor cases are few: rotate the list so that even Hypothesis' simplest example mixes fates
+            rot = [0, 12, 3, 15][i % 4] if mode == "loky" else 0
+            o = draw(st.sampled_from(kinds[rot:] + kinds[:rot]))
             if o != "ok":
                 col[k] = o
         outcomes.append(col)
@@ -491,6 +494,20 @@ def execute(case) -> Soft:
     return s
 
 
+def call_app(s: Soft, sig, fn, *args):
+    """s.call for entry points that run the harness steps: an exception the steps raise ON PURPOSE (a record's
+    generated failure) that escapes from cogent3 is a violation of 'never raises because a record fails', although
+    its innermost frame is harness code"""
+    try:
+        return s.call(sig, fn, *args)
+    except Exception as e:  # noqa: BLE001
+        text = str(e)
+        if text.startswith(("boom:", "unreadable:")) or "boom:" in text[:200]:
+            s.fail(f"{sig}/record-failure-escaped:{type(e).__name__}", f"{type(e).__name__}: {text[:300]}")
+            return False, e
+        raise
+
+
 def _par_kw(case):
     kw = {}
     if case["max_workers"] is not None:
@@ -549,7 +566,7 @@ def _run(s: Soft, case, root, stores):
     solo_app = build_chain(case)
     solo = {}
     for key, x in singles:
-        ok, res = s.call("solo/call", solo_app, x)
+        ok, res = call_app(s, "solo/call", solo_app, x)
         if not ok:
             continue
         solo[key] = canon_live(s, "solo", res)
@@ -568,7 +585,7 @@ def _run(s: Soft, case, root, stores):
     ac_keys = [k for k, _ in ac_singles]  # submission order
 
     def run_ac():
-        return s.call(pre + "as_completed", lambda: list(ac_app.as_completed(ac_inputs, parallel=parallel, par_kw=par_kw, show_progress=False)))
+        return call_app(s, pre + "as_completed", lambda: list(ac_app.as_completed(ac_inputs, parallel=parallel, par_kw=par_kw, show_progress=False)))
 
     (ok, got), sched = scheduled(run_ac)
     if sched is not None and n > 0:
@@ -610,7 +627,7 @@ def _run(s: Soft, case, root, stores):
             s.check(len(set(seen)) == len(seen) and set(seen) <= set(keys) and len(seen) + unidentified == n and unidentified <= sourceless, pre + "as_completed/sources", f"un-proxied results: identified {sorted(seen)}, unidentified {unidentified} (at most {sourceless} expected), inputs {sorted(keys)}")
         if execution == "loky" and seen != ac_keys:
             s.cls("loky-completion-order-differs-from-submission")
-        if execution == "serial":
+        if execution == "serial" and unidentified == 0:
             s.eq(seen, ac_keys, pre + "as_completed/serial-order", "serial results are documented to come in input order")
         if execution == "owned" and len(seen) == n and sorted(seen) == sorted(keys):
             # sanity of the harness schedule itself (not a property clause): results came in the requested order
@@ -632,7 +649,7 @@ def _run(s: Soft, case, root, stores):
     logger = None if case["logger"] else False
 
     def run_apply():
-        return s.call(pre + "apply_to", lambda: app.apply_to(inputs, parallel=parallel, par_kw=par_kw, logger=logger, show_progress=False))
+        return call_app(s, pre + "apply_to", lambda: app.apply_to(inputs, parallel=parallel, par_kw=par_kw, logger=logger, show_progress=False))
 
     (ok, ds), sched = scheduled(run_apply)
     if sched is not None:
@@ -649,7 +666,7 @@ def _run(s: Soft, case, root, stores):
     inputs2, _ = make_inputs(case, indir)
 
     def run_again():
-        return s.call(pre + "second-apply_to", lambda: app.apply_to(inputs2, parallel=parallel, par_kw=par_kw, logger=logger, show_progress=False))
+        return call_app(s, pre + "second-apply_to", lambda: app.apply_to(inputs2, parallel=parallel, par_kw=par_kw, logger=logger, show_progress=False))
 
     (ok, ds2), sched = scheduled(run_again)
     if not ok:
@@ -749,7 +766,7 @@ def _brief(fates):
 # ===================================================================== subs
 SUBS = [
     Sub("owned", execute, strategy=cases("owned"), quick=640, thorough=64_000, shards_quick=16),
-    Sub("loky", execute, strategy=cases("loky"), quick=6, thorough=100, shards_quick=3, weight=50.0),
+    Sub("loky", execute, strategy=cases("loky"), quick=6, thorough=100, shards_quick=1, weight=50.0),
 ]
 
 
@@ -760,13 +777,21 @@ def _kp_wrong_reaches_typed_writer(case, sig, msg):
 
 
 def _kp_unproxied_wrong_type(case, sig, msg):
-    """an input carrying its own `source` attribute (not proxied) produces a wrong-type value that a typed step rejects"""
-    return case["present"] == "attr" and any(f.get("src_circ") == "wrong-type-value" for f in fold(case).values())
+    """an input carrying its own `source` attribute (not proxied) produces a wrong-type value (bare, or rejected by the next typed step)"""
+    if case["present"] != "attr":
+        return False
+    return any(f["pre_writer"].get("wrong") or f["pre_writer"].get("src_circ") == "wrong-type-value" for f in fold(case).values())
+
+
+def _kp_value_without_source(case, sig, msg):
+    """some record fails at a step whose input value carries no source (a wrong-type value, a Table from load_tabular)"""
+    return any(f["status"] == "N" and f.get("src_circ") != "ok" for f in fold(case).values())
 
 
 KNOWN_PREDICATES = {
     "wrong_reaches_typed_writer": _kp_wrong_reaches_typed_writer,
     "unproxied_wrong_type": _kp_unproxied_wrong_type,
+    "value_without_source": _kp_value_without_source,
 }
 
 META = {
